@@ -643,3 +643,26 @@ M("opc13-310-test-inverted", "C02", LL, "        if code[offs] == op[\"WITH_EXCE
 M("opc13-310-no-return", "C02", LL, "        if code[offs] == op[\"WITH_EXCEPT_START\"]:\n            return ExitingContext(is_async=is_async, cleanup_offset=offs)\n        if offs < 8", "        if code[offs] == op[\"WITH_EXCEPT_START\"]:\n            pass\n        if offs < 8", "OPC-13")
 M("opc13-311-no-push-exc-info-step", "C02", LL, "            offs -= 2  # back up to PUSH_EXC_INFO\n", "", "OPC-13")
 
+# ---------------------------------------------------------------- OPC-12 (block walk of 3.9 / 3.10)
+M("opc12-seen-inverted", "C02", LL, "        if offs in seen:\n            continue\n", "        if offs not in seen:\n            continue\n", "OPC-12")
+M("opc12-seen-not-marked", "C02", LL, "        seen.add(offs)\n", "", ["OPC-12"])
+M("opc12-jabs-not-queued", "C02", LL, "            todo.append((arg * jmul, stack[:]))\n", "            pass\n", ["OPC-12", "OPC-8"], accept_analysis_error=True)
+M("opc12-jrel-target-minus", "C02", LL, "            todo.append((offs + 2 + arg * jmul, stack[:]))\n", "            todo.append((offs + 2 - arg * jmul, stack[:]))\n", ["OPC-12", "OPC-8"])
+M("opc12-jrel-stack-aliased", "C02", LL, "            todo.append((offs + 2 + arg * jmul, stack[:]))\n", "            todo.append((offs + 2 + arg * jmul, stack))\n", ["OPC-12"])
+M("opc12-push-wrong-address", "C02", LL, "                stack.append(offs + 2 + arg * jmul)\n", "                stack.append(offs + arg * jmul)\n", ["OPC-12", "OPC-8"])
+M("opc12-popblock-inverted", "C02", LL, "        if code[offs] == op[\"POP_BLOCK\"]:\n            if offs == pop_block_offs:", "        if code[offs] != op[\"POP_BLOCK\"]:\n            if offs == pop_block_offs:", ["OPC-12", "OPC-5"])
+M("opc12-target-inverted", "C02", LL, "            if offs == pop_block_offs:\n", "            if offs != pop_block_offs:\n", ["OPC-12"])
+M("opc12-outermost-handler", "C02", LL, "                return ExitingContext(is_async=is_async, cleanup_offset=stack[-1])\n", "                return ExitingContext(is_async=is_async, cleanup_offset=stack[0])\n", ["OPC-12"])
+M("opc12-no-pop", "C02", LL, "                return ExitingContext(is_async=is_async, cleanup_offset=stack[-1])\n            stack.pop()\n", "                return ExitingContext(is_async=is_async, cleanup_offset=stack[-1])\n", ["OPC-12"])
+M("opc12-no-fallthrough", "C02", LL, "            todo.append((offs + 2, stack))\n", "            pass\n", ["OPC-12"])
+M("opc12-fallthrough-after-uncond", "C02", LL, "        if code[offs] not in (\n            op[\"JUMP_FORWARD\"],", "        if code[offs] in (\n            op[\"JUMP_FORWARD\"],", ["OPC-12"])
+M("opc12-arg-wrong-byte", "C02", LL, "        arg = code[offs + 1]\n        while code[offs] == op[\"EXTENDED_ARG\"]:", "        arg = code[offs + 2]\n        while code[offs] == op[\"EXTENDED_ARG\"]:", ["OPC-12"])
+T("opc12-twin-copy-method", "C02", LL, "            todo.append((offs + 2 + arg * jmul, stack[:]))\n", "            todo.append((offs + 2 + arg * jmul, stack.copy()))\n")
+T("opc12-twin-target-local", "C02", LL, "            todo.append((offs + 2 + arg * jmul, stack[:]))\n", "            rel_target = arg * jmul + 2 + offs\n            todo.append((rel_target, list(stack)))\n")
+T("opc12-twin-fallthrough-copy", "C02", LL, "            todo.append((offs + 2, stack))\n", "            todo.append((2 + offs, stack[:]))\n")
+
+# ---------------------------------------------------------------- OPC-14
+M("opc14-next-not-checked", "C02", LL, "        if code[offs] == op[\"YIELD_FROM\"] or (\n            offs + 2 < len(code) and code[offs + 2] == op[\"YIELD_FROM\"]\n        ):", "        if code[offs] == op[\"YIELD_FROM\"]:", ["OPC-14", "OPC-5"], accept_analysis_error=True)
+M("opc14-is-async-false", "C02", LL, "            # Async calls have lasti pointing at YIELD_FROM or LOAD_CONST\n            is_async = True\n", "            # Async calls have lasti pointing at YIELD_FROM or LOAD_CONST\n            is_async = False\n", ["OPC-14"])
+M("opc14-step-inverted", "C02", LL, "            if code[offs] == op[\"YIELD_FROM\"]:\n                # If lasti points", "            if code[offs] != op[\"YIELD_FROM\"]:\n                # If lasti points", ["OPC-14", "OPC-5"])
+
